@@ -231,4 +231,15 @@ Proof.
     exists ent, (pents (lp ++ rp)). split; [exact Hp|]. split; [|exact Hd].
     intros e [<-|He]; [eapply nth_error_In; eauto | eapply pents_in; eauto].
 Qed.
+(* the node extensions are those of the node's two end k-mers, read in the node's frame (C03 terminal_exts) *)
+Theorem compress_terminal : exists nodes,
+  compress_kmers D reduce join stranded T = Some nodes /\ terminal_ok D K stranded T nodes.
+Proof.
+  destruct (compress_refines D reduce join K stranded HK T Hok Hsym) as [nodes [Hc Hrel]].
+  exists nodes. split; [exact Hc|]. intros n Hn.
+  destruct (Forall2_in_l _ _ _ Hrel n Hn) as [[[lp s] rp] [Hin [ent [Hi Heq]]]].
+  destruct (struct_chains U U (seq_NoDup _ _) _ _ _ Hin) as (HcL & HcR & _).
+  destruct (node_terminal D join K stranded HK T Hok Hsym lp s rp ent Hi HcL HcR) as (el & er & H1 & H2 & H3).
+  subst n. unfold n_seq, n_exts. cbn [fst snd]. exists el, er. auto.
+Qed.
 End C01.
